@@ -20,12 +20,47 @@ import numpy as np
 from harness import extract
 from harness.core import MachineryError, f2b, b2f
 
-MODEL_MODULES = ['SkyllhModel.Model.Load', 'SkyllhModel.Model.LoadI3']
+from harness import c17_r7_fixtures as r7
+
+MODEL_MODULES = ['SkyllhModel.Model.Load', 'SkyllhModel.Model.LoadI3', 'SkyllhModel.Model.LoadDispatchR7']
+
+# Python callables with an executable Lean counterpart that run(ctx) compares with the real callable on every run
+MODEL_MAP = {
+    'skyllh/core/storage.py::NPYFileLoader._load_file_memory_efficiently': ['Load.loadFileMem', 'Load.memRows', 'Load.assignRow'],
+    'skyllh/core/storage.py::NPYFileLoader._load_file_time_efficiently': ['Load.loadFileTime', 'Load.ctorNd'],
+    'skyllh/core/storage.py::NPYFileLoader.load_data': ['Load.npyLoad', 'Load.appendAll'],
+    'skyllh/core/storage.py::ParquetFileLoader.load_data': ['Load.parquetLoad', 'Load.pqRead', 'Load.pqAll', 'Load.ctorPq'],
+    'skyllh/core/storage.py::PKLFileLoader.load_data': ['Load.pklLoad', 'Load.pklObjects'],
+    'skyllh/core/storage.py::TextFileLoader.load_data': ['Load.csvLoad'],
+    'skyllh/core/storage.py::TextFileLoader._load_file': ['Load.csvLoadFile', 'LoadR7.headerSelect', 'LoadR7.usecolsGo'],
+    'skyllh/core/storage.py::TextFileLoader._extract_column_names': ['LoadR7.extractColumnNames', 'LoadR7.stripBy', 'LoadR7.splitWs',
+                                                                     'LoadR7.splitSep'],
+    'skyllh/core/storage.py::create_FileLoader': ['LoadR7.createLoader', 'LoadR7.firstMatch', 'LoadR7.sortedKeys', 'LoadR7.fmtMatches'],
+    'skyllh/core/storage.py::register_FileLoader': ['LoadR7.registerLoader', 'LoadR7.registerGo'],
+    'skyllh/core/storage.py::DataFieldRecordArray.__init__': ['Load.ctorNd', 'Load.ctorPq', 'Load.selected', 'Load.targetDt', 'Load.isKept'],
+    'skyllh/core/storage.py::DataFieldRecordArray.append': ['Load.appendArr'],
+    'skyllh/core/storage.py::DataFieldRecordArray.rename_fields': ['Load.renameFields', 'Load.renameGo'],
+    'skyllh/core/dataset.py::Dataset.load_data': ['Load.loadData', 'Load.keepExp', 'Load.keepMc', 'Load.new2orig', 'Load.excOrig'],
+    'skyllh/core/dataset.py::Dataset.load_and_prepare_data': ['Load.loadAndPrepare', 'Load.loadAndPrepareS', 'Load.tidyUp', 'Load.mergeTables'],
+    'skyllh/core/dataset.py::assert_data_format': ['Load.assertFormat', 'Load.missingKeys'],
+    'skyllh/core/dataset.py::Dataset.get_abs_pathfilename_list': ['Load.getAbsPaths', 'Load.absPathsGo'],
+    'skyllh/core/dataset.py::Dataset.exp_pathfilename_list': ['Load.defineCopy'],
+    'skyllh/core/dataset.py::Dataset.mc_pathfilename_list': ['Load.defineCopy'],
+    'skyllh/core/datafields.py::DataFieldStages.or_check': ['Load.orCheck'],
+    'skyllh/i3/dataset.py::I3Dataset.load_grl': ['Load.loadGrl', 'Load.sortByField'],
+    'skyllh/i3/dataset.py::I3Dataset.load_data': ['Load.i3LoadAndPrepare'],
+    'skyllh/i3/dataset.py::I3Dataset.prepare_data': ['Load.i3Prepare', 'Load.i3Livetime', 'Load.i3Select', 'Load.timeMaskGo', 'Load.runMask',
+                                                     'Load.applyMask', 'Load.addSin'],
+    'skyllh/i3/dataset.py::I3Dataset.grl_pathfilename_list': ['Load.defineCopy'],
+}
 
 DT = {'f8': np.float64, 'f4': np.float32, 'i8': np.int64, 'i4': np.int32}
 CODE = {np.dtype(v).str: k for k, v in DT.items()}
 NAN8, NAN4 = 0x7ff8000000000000, 0x7fc00000
-RECORDED = {'bs': 4096, 'stages': [1, 2, 4, 8]}
+RECORDED = {'bs': 4096, 'stages': [1, 2, 4, 8],
+            'registry': [['.npy', 'NPYFileLoader'], ['.parquet', 'ParquetFileLoader'], ['.pkl', 'PKLFileLoader'],
+                         ['.csv', 'TextFileLoader']],
+            'text_defaults': ['#', None]}
 
 
 # ------------------------------------------------------------------------------------------
@@ -75,6 +110,36 @@ def _source_constants(ctx=None):
         out['stages'] = st
     except Exception:  # noqa
         fallbacks.append('stages')
+    try:
+        # the module-level `register_FileLoader([...], Cls)` calls of storage.py, in source order
+        import ast
+        reg = []
+        for node in extract.parse('skyllh/core/storage.py').body:
+            call = node.value if isinstance(node, ast.Expr) and isinstance(node.value, ast.Call) else None
+            if call is None or not isinstance(call.func, ast.Name) or call.func.id != 'register_FileLoader':
+                continue
+            args = list(call.args) + [None, None]
+            kw = {k.arg: k.value for k in call.keywords}
+            fm = extract.literal(kw.get('formats', args[0]))
+            cl = kw.get('fileloader_cls', args[1])
+            if isinstance(fm, str):
+                fm = [fm]
+            if not (isinstance(fm, (list, tuple)) and all(isinstance(f, str) and f.isascii() for f in fm)) or not isinstance(cl, ast.Name):
+                raise ValueError('registry')
+            reg += [[f, cl.id] for f in fm]
+        if not reg:
+            raise ValueError('registry')
+        out['registry'] = reg
+    except Exception:  # noqa
+        fallbacks.append('registry')
+    try:
+        td = [extract.arg_default('skyllh/core/storage.py', 'TextFileLoader', '__init__', a)
+              for a in ('header_comment', 'header_separator')]
+        if not (isinstance(td[0], str) and (td[1] is None or isinstance(td[1], str))):
+            raise ValueError('text_defaults')
+        out['text_defaults'] = td
+    except Exception:  # noqa
+        fallbacks.append('text_defaults')
     if ctx is not None:
         for f in fallbacks:
             ctx.proof['generated_fallbacks'].append('C17.' + f)
@@ -82,17 +147,32 @@ def _source_constants(ctx=None):
     return out
 
 
+def _lean_str(x):
+    """a Python str as the model's list of code points"""
+    return '[' + ', '.join(str(ord(ch)) for ch in x) + ']'
+
+
 def generated(ctx):
     c = source_constants(ctx)
     s = c['stages']
+    reg = ', '.join('(%s, "%s")' % (_lean_str(f), cl) for f, cl in c['registry'])
+    hc, hs = c['text_defaults']
     return ('/- generated by harness/props/c17.py from skyllh/core/storage.py and skyllh/core/datafields.py -/\n'
             'import SkyllhModel.Model.Load\n'
+            'import SkyllhModel.Model.LoadDispatchR7\n'
             'namespace Gen.C17\n'
             '/-- `bs` of NPYFileLoader._load_file_memory_efficiently -/\n'
             'def reopenBlock : Nat := %d\n'
             '/-- DataFieldStages.DATAPREPARATION_EXP, DATAPREPARATION_MC, ANALYSIS_EXP, ANALYSIS_MC -/\n'
             'def stages : Load.Stages := ⟨%d, %d, %d, %d⟩\n'
-            'end Gen.C17\n' % (c['bs'], s[0], s[1], s[2], s[3]))
+            '/-- the module-level `register_FileLoader(formats, cls)` calls of storage.py, in source order\n'
+            '    (format as code points, class name): %s -/\n'
+            'def loaderRegistry : List (LoadR7.Str × String) := [%s]\n'
+            '/-- defaults of TextFileLoader.__init__: header_comment, header_separator (none = None: whitespace) -/\n'
+            'def headerComment : LoadR7.Str := %s\n'
+            'def headerSeparator : Option LoadR7.Str := %s\n'
+            'end Gen.C17\n' % (c['bs'], s[0], s[1], s[2], s[3], ' '.join(f for f, _ in c['registry']), reg, _lean_str(hc),
+                               'none' if hs is None else 'some ' + _lean_str(hs)))
 
 
 # ------------------------------------------------------------------------------------------
@@ -1322,6 +1402,10 @@ ALL_BRANCHES = [
     'applyMask:all-true', 'applyMask:selection', 'addSin:added', 'addSin:exists', 'loadGrl:none', 'loadGrl:sorted',
     'loadGrl:renamed', 'loadGrl:keyError',
     'orCheck:true', 'orCheck:false',
+    'dispatch:typeError', 'dispatch:indexError', 'dispatch:noLoader', 'dispatch:match', 'dispatch:match-str-form',
+    'register:typeError-formats', 'register:typeError-class', 'register:keyError-first', 'register:keyError-after-some', 'register:ok',
+    'extract:not-a-comment-line', 'extract:no-names', 'extract:whitespace-split', 'extract:separator-split',
+    'header:valueError', 'header:noColumns', 'select:all', 'select:usecols',
 ]
 
 
@@ -1903,7 +1987,32 @@ def o_corr_paths(ctx, case):
     return None
 
 
-ORACLES = {'definition_isolated': o_definition_isolated, 'corr_alias': o_corr_alias, 'reuse': o_reuse, 'csv_options': o_csv_options, 'i3': o_i3, 'corr_i3': o_corr_i3, 'corr_pkl': o_corr_pkl, 'abs_paths': o_abs_paths, 'corr_paths': o_corr_paths, 'corr_rename': o_corr_rename, 'writeable': o_writeable, 'csv_comma': o_csv_comma, 'str_args': o_str_args, 'pkl_dataset': o_pkl_dataset,
+def o_dispatch(ctx, case):
+    return r7.o_dispatch(ctx, case, source_constants(), _recording_format)
+
+
+def o_register(ctx, case):
+    r7.mirror(source_constants(), _recording_format)
+    pre, clsname, outcome, probes = r7.impl_register(case)
+    return r7.check_register(case, pre, clsname, outcome, probes)
+
+
+def o_corr_dispatch(ctx, case):
+    reg = r7.mirror(source_constants(), _recording_format)
+    got = r7.impl_dispatch(case)
+    model = r7.parse_dispatch(ctx.driver('C17', [r7.dispatch_request(case, reg)])[0])
+    return None if got == model else 'create_FileLoader: implementation %r, model %r' % (got, model)
+
+
+def o_corr_header(ctx, case):
+    with workdir() as d:
+        got = r7.impl_header(d, case, 'c')
+    model = r7.parse_header(ctx.driver('C17', [r7.header_request(case)])[0], case['ncols'])
+    return None if got[0] == model[0] and got[-1] == model[-1] else 'text header: implementation %r, model %r' % (got, model)
+
+
+ORACLES = {'dispatch': o_dispatch, 'register': o_register, 'corr_dispatch': o_corr_dispatch, 'header': r7.o_header,
+           'corr_header': o_corr_header, 'definition_isolated': o_definition_isolated, 'corr_alias': o_corr_alias, 'reuse': o_reuse, 'csv_options': o_csv_options, 'i3': o_i3, 'corr_i3': o_corr_i3, 'corr_pkl': o_corr_pkl, 'abs_paths': o_abs_paths, 'corr_paths': o_corr_paths, 'corr_rename': o_corr_rename, 'writeable': o_writeable, 'csv_comma': o_csv_comma, 'str_args': o_str_args, 'pkl_dataset': o_pkl_dataset,
            'history': o_history, 'corr_history': o_corr_history, 'modes': o_modes, 'reference': o_reference, 'formats': o_formats, 'dataset': o_dataset,
            'stage_check': o_stage_check, 'corr_load': o_corr_load, 'corr_ds': o_corr_ds}
 
@@ -2186,7 +2295,12 @@ def run(ctx):
                         'bounded by 2**52)',
                         'renaming dictionaries do not chain (no new name is also an original name) in the data-set level oracle; '
                         'the model mirrors the sequential renaming of the code for all dictionaries',
-                        'files are not modified while they are being loaded (fs is a function)']
+                        'files are not modified while they are being loaded (fs is a function)',
+                        'round 7 (registry / dispatch / text header): file names, formats and header lines are ASCII (the model has '
+                        'ASCII str.lower / str.isspace); registered formats are str; hypotheses of c17_dispatch_by_format (formats '
+                        'distinct, non-empty, none a suffix of another) are proved for the registry of the current source '
+                        '(c17_registry_for_current_source); c17_header_roundtrip: whitespace-separated header (the default), comment '
+                        'string without whitespace, names without whitespace / comment characters']
     ctx.extra['source_constants'] = consts
 
     load_cases, oracle_cases, ds_cases = [], [], []
@@ -2466,14 +2580,92 @@ def run(ctx):
     acases += [{'initial': ['f0', 'f1'], 'ops': [['app', 'x0']], 'which': w, 'via': v, 'form': 'list', 'load': True}
                for w in ('exp', 'mc') for v in ('constructor', 'setter')]
     acases.append({'initial': ['f0'], 'ops': [['rev']], 'which': 'exp', 'via': 'constructor', 'form': 'tuple'})
+    # ---- round 7: loader registry / dispatch, text header (the registrations run first: the registry is process state)
+    reg0 = r7.mirror(consts, _recording_format)
+    gcases = [r7.gen_register(rng, reg0) for _ in range(ctx.n(10, 40))]
+    gcases += [{'formats': [reg0[0][0]], 'form': 'str', 'cls': 'loader'}, {'formats': ['.r7fixA', reg0[1][0], '.r7fixB'], 'form': 'list', 'cls': 'loader'},
+               {'formats': ['.r7fixC'], 'form': 'list', 'cls': 'notloader'}, {'formats': [], 'form': 'other', 'cls': 'loader'},
+               {'formats': ['.r7fixD', '.r7fixE'], 'form': 'tuple', 'cls': 'loader'}]
+    gimpls = [r7.impl_register(c) for c in gcases]
+    greqs = [r7.register_request(c, g[0], g[1]) for c, g in zip(gcases, gimpls)]
+    reg1 = [list(e) for e in r7.mirror(consts, _recording_format)]
+    dcases = [r7.gen_dispatch(rng, reg1) for _ in range(ctx.n(150, 2000))]
+    dcases += [{'paths': ['a.NPY', 'b.csv'], 'form': 'list'}, {'paths': ['b.csv', 'a.npy'], 'form': 'tuple'}, {'paths': ['a.txt'], 'form': 'str'},
+               {'paths': [], 'form': 'list'}, {'paths': [], 'form': 'other', 'other': 'int'}, {'paths': ['x.parquet'], 'form': 'str'},
+               {'paths': ['npy'], 'form': 'list'}, {'paths': ['f.a.zz'], 'form': 'list'}, {'paths': ['ax.r7x'], 'form': 'list'}]
+    dreqs = [r7.dispatch_request(c, reg1) for c in dcases]
+    xcases = [r7.gen_header(rng) for _ in range(ctx.n(150, 2000))]
+    xcases += [dict(comment='#', sep=None, line='#  \n', ncols=2, nrows=1, keep=None, keep_form='list', kind='comment-only'),
+               dict(comment='#', sep=None, line='# ra dec\n', ncols=2, nrows=2, keep=['dec'], keep_form='list', kind='ok'),
+               dict(comment='#', sep=',', line='# ra, dec ,e\n', ncols=3, nrows=1, keep=['e', 'ra'], keep_form='tuple', kind='ok'),
+               dict(comment='#', sep=None, line='ra dec\n', ncols=2, nrows=1, keep=None, keep_form='list', kind='no-comment'),
+               dict(comment='#', sep=None, line='# ra dec\n', ncols=2, nrows=1, keep=[], keep_form='list', kind='ok'),
+               dict(comment='#', sep='', line='# ra dec\n', ncols=2, nrows=1, keep=None, keep_form='list', kind='empty-separator')]
+    xreqs = [r7.header_request(c) for c in xcases]
     batch2 = [[i3_request(c, consts) for c in icases], [pkl_request(c) for c in kcases], preqs,
-              [rename_request(c) for c in rcases], [r for rs in hreqs for r in rs if r], [alias_request(c) for c in acases]]
+              [rename_request(c) for c in rcases], [r for rs in hreqs for r in rs if r], [alias_request(c) for c in acases],
+              greqs, dreqs, xreqs]
     ans2 = ctx.driver('C17', [r for part in batch2 for r in part])
     cuts = [0]
     for part in batch2:
         cuts.append(cuts[-1] + len(part))
     ians = ans2[cuts[0]:cuts[2]]
     pans, rans, hans_list, aans = ans2[cuts[2]:cuts[3]], ans2[cuts[3]:cuts[4]], ans2[cuts[4]:cuts[5]], ans2[cuts[5]:cuts[6]]
+    gans, dans, xans = ans2[cuts[6]:cuts[7]], ans2[cuts[7]:cuts[8]], ans2[cuts[8]:cuts[9]]
+    for c, g, ans in zip(gcases, gimpls, gans):
+        ctx.case(key=('register', c), desc={'kind': 'register', 'case': c} if ctx.evaluations % 7 == 0 else None)
+        pre, clsname, outcome, probes = g
+        post, want = r7.ref_register(pre, c, clsname)
+        ctx.count('branch:register:' + ('ok' if want == 'ok' else ('typeError-formats' if c['form'] == 'other' else 'typeError-class')
+                                       if want == 'TypeError' else 'keyError-first' if len(post) == len(pre) else 'keyError-after-some'))
+        ctx.count('forms:register:' + c['form'])
+        res = r7.check_register(c, pre, clsname, outcome, probes)
+        if res:
+            ctx.violation('register', c, res, signature='C17/register/' + ('outcome' if 'expected' in res and 'probe' not in res else 'registry'))
+            continue
+        model = r7.parse_register(ans)
+        if model != (post, want):
+            ctx.violation('register', c, 'register_FileLoader: reference %r, model %r' % ((post, want), model), kind='correspondence',
+                          relation='exact: registry after the call, error type', signature='C17/corr/register', no_failing_input=True)
+            break
+    with workdir() as d:
+        ximpls = [r7.impl_header(d, c, str(i)) for i, c in enumerate(xcases)]
+    for c, ans in zip(dcases, dans):
+        ctx.case(key=('dispatch', c), desc={'kind': 'dispatch', 'case': c} if ctx.evaluations % 53 == 0 else None)
+        ctx.count('branch:' + r7.branch_dispatch(c, ans))
+        ctx.count('forms:dispatch:' + c['form'])
+        if c['paths']:
+            ctx.count('dispatch:formats-matching-first-name=%d' % min(2, sum(c['paths'][0].lower().endswith(f.lower()) for f, _ in reg1)))
+            if len(set(os.path.splitext(p_)[1].lower() for p_ in c['paths'])) > 1:
+                ctx.count('dispatch:mixed-extension-list')
+        res = r7.o_dispatch(ctx, c)
+        if res:
+            ctx.violation('dispatch', c, res, signature='C17/dispatch/' + ('path-list' if 'loader lists' in res else 'first-name' if 'alone' in res else 'class'))
+            continue
+        got, model = r7.impl_dispatch(c), r7.parse_dispatch(ans)
+        if got != model:
+            ctx.violation('corr_dispatch', c, 'create_FileLoader(%r): implementation %r, model %r' % (c['paths'], got, model), kind='correspondence',
+                          relation='exact: class, path list / error type', signature='C17/corr/dispatch', no_failing_input=True)
+            break
+    for c, got, ans in zip(xcases, ximpls, xans):
+        ctx.case(key=('header', c), desc={'kind': 'header', 'case': c} if ctx.evaluations % 59 == 0 else None)
+        for b in r7.branches_header(c, ans):
+            ctx.count('branch:' + b)
+        ctx.count('header:' + c['kind'] + (':sep' if c['sep'] else ':whitespace'))
+        ctx.count('forms:header:via-' + c.get('via', 'class'))
+        model = r7.parse_header(ans, c['ncols'])
+        if got[0] != model[0] or got[-1] != model[-1]:
+            res = r7.o_header(ctx, c)
+            if res:
+                ctx.violation('header', c, res, signature='C17/header/' + ('error' if 'ValueError' in res else 'columns'))
+            else:
+                ctx.violation('corr_header', c, 'text header %r: implementation %r, model %r' % (c['line'], got, model), kind='correspondence',
+                              relation='exact: field -> file column / error type', signature='C17/corr/header', no_failing_input=True)
+                break
+        elif rng.random() < 0.25:
+            res = r7.o_header(ctx, c)
+            if res:
+                ctx.violation('header', c, res, signature='C17/header/' + ('error' if 'ValueError' in res else 'columns'))
     # ---- file lists handed in at definition: the data set keeps its own copy
     for c, ans in zip(acases, aans):
         ctx.case(key=('alias', c), desc={'kind': 'alias', 'case': c} if ctx.evaluations % 131 == 0 else None)
@@ -2632,7 +2824,11 @@ MANIFEST = dict(
           'name and present under its new name; after load_and_prepare_data every analysis-stage field of the merged '
           '(configuration + data set) stage table is present, nothing but required/kept fields remains, and a missing required field '
           'or file is an error. The model is compared exactly (cell bit patterns) with NPY/Parquet/Text loaders and '
-          'Dataset.load_and_prepare_data on every run; implementation-only oracles compare modes, formats and a numpy reference.'),
+          'Dataset.load_and_prepare_data on every run; implementation-only oracles compare modes, formats and a numpy reference. '
+          'Round 7: the loader registry and create_FileLoader (a name ending in a registered format reaches the class registered '
+          'for it, the first name decides, unknown format / empty list are errors, registration keeps existing entries) and the '
+          'table header of text files (header round trip, usecols = the file column carrying each kept name) are modelled, proved '
+          'and compared with the real functions on every run.'),
     note=('File codecs, the file system, numpy casts and pyarrow are parameters of the model (compared, not proved); pkl files are '
           'checked by oracle only (the loader returns the unpickled object); kind-changing or overflowing dtype conversions are '
           'outside the proved domain (two open findings: the modes differ there).'),
